@@ -29,15 +29,16 @@ type c08sym struct {
 }
 
 var c08 struct {
-	seed  uint64
-	tier  string
-	full  []c08sym // full alphabet (1 connection)
-	small []c08sym // reduced alphabet (2..3 connections)
-	words []c08word
-	nRand int
-	once  sync.Once
-	srv   *redis.Server
-	port  int
+	seed   uint64
+	tier   string
+	full   []c08sym // full alphabet (1 connection)
+	small  []c08sym // reduced alphabet (2..3 connections)
+	blocks []c08block
+	nEnum  int
+	nRand  int
+	once   sync.Once
+	srv    *redis.Server
+	port   int
 }
 
 type c08step struct {
@@ -105,40 +106,68 @@ func c08alphabets() {
 	c08.small = []c08sym{full[0], full[1], full[3+len(c08pass)-2], data[0], data[1]}
 }
 
-func c08enumerate(conns int, nsym int, maxLen int, small bool) []c08word {
-	var out []c08word
-	base := conns * nsym
-	var rec func(prefix []c08step)
-	rec = func(prefix []c08step) {
-		if len(prefix) > 0 {
-			out = append(out, c08word{Conns: conns, Small: small, Steps: append([]c08step{}, prefix...)})
-		}
-		if len(prefix) == maxLen {
-			return
-		}
-		for x := 0; x < base; x++ {
-			rec(append(prefix, c08step{Conn: x / nsym, Sym: x % nsym}))
-		}
+// enumerated blocks: all words up to maxLen over (connections x symbols); a word is computed from its
+// index by mixed-radix arithmetic (nothing is materialised: the thorough tier has millions of words)
+type c08block struct {
+	Conns, NSym, MaxLen int
+	Small               bool
+	Count               int
+}
+
+func (b c08block) size() int {
+	base := b.Conns * b.NSym
+	n, p := 0, 1
+	for l := 1; l <= b.MaxLen; l++ {
+		p *= base
+		n += p
 	}
-	rec(nil)
-	return out
+	return n
+}
+
+func (b c08block) word(i int) c08word {
+	base := b.Conns * b.NSym
+	l, p := 1, base
+	for i >= p {
+		i -= p
+		p *= base
+		l++
+	}
+	w := c08word{Conns: b.Conns, Small: b.Small, Steps: make([]c08step, l)}
+	for k := l - 1; k >= 0; k-- {
+		x := i % base
+		i /= base
+		w.Steps[k] = c08step{Conn: x / b.NSym, Sym: x % b.NSym}
+	}
+	return w
 }
 
 func c08setup(tier string, seed uint64) int {
 	c08.seed, c08.tier = seed, tier
 	c08alphabets()
-	c08.words = nil
 	l1 := map[string]int{"quick": 3, "thorough": 4}[tier]
-	c08.words = append(c08.words, c08enumerate(1, len(c08.full), l1, false)...)
-	c08.words = append(c08.words, c08enumerate(2, len(c08.small), 4, true)...)
-	c08.words = append(c08.words, c08enumerate(3, len(c08.small), 3, true)...)
+	c08.blocks = []c08block{
+		{Conns: 1, NSym: len(c08.full), MaxLen: l1},
+		{Conns: 2, NSym: len(c08.small), MaxLen: 4, Small: true},
+		{Conns: 3, NSym: len(c08.small), MaxLen: 3, Small: true},
+	}
+	c08.nEnum = 0
+	for i := range c08.blocks {
+		c08.blocks[i].Count = c08.blocks[i].size()
+		c08.nEnum += c08.blocks[i].Count
+	}
 	c08.nRand = map[string]int{"quick": 6000, "thorough": 200000}[tier]
-	return len(c08.words) + c08.nRand
+	return c08.nEnum + c08.nRand
 }
 
 func c08get(idx int) c08word {
-	if idx < len(c08.words) {
-		return c08.words[idx]
+	if idx < c08.nEnum {
+		i := idx
+		for _, b := range c08.blocks {
+			if i < b.Count {
+				return b.word(i)
+			}
+			i -= b.Count
+		}
 	}
 	r := rng.New(c08.seed, rng.Str("C08"), uint64(idx))
 	w := c08word{Conns: 1 + r.Intn(3)}
